@@ -42,6 +42,15 @@ def run(pid: str, tier: str, with_search: bool = False) -> int:
         raise tlc.TLCError(f"Segmentation.tla violates {res.violated}")
     V.model(res, "Segmentation.tla (placement theorems over all N, L, K-choices)")
 
+    # 1b. the same placement lemma for UNBOUNDED N, L, K, i (Apalache, SMT); without the cap it must fail
+    if pid in ("C02", "C04"):
+        apa = tlc.SPEC_DIR / "apalache"
+        o1, w1 = tlc.run_apalache(apa / "SegPlacement.tla", "Lemma", f"{pid}_segplacement")
+        o2, w2 = tlc.run_apalache(apa / "SegPlacementNoCap.tla", "Lemma", f"{pid}_segplacement_nocap")
+        if o1 != "ok" or o2 != "violated":
+            raise tlc.TLCError(f"Apalache: placement lemma {o1} (expected ok), without the cap {o2} (expected violated)")
+        V.set("apalache_unbounded_placement_lemma", {"with_cap": o1, "without_cap": o2, "wall_s": round(w1 + w2, 1)})
+
     # 2. exact LTF/LPSD model, invariants + plans for replay
     res = tlc.run_model("Sched", f"{pid}_sched", constants=sched.model_constants(tier),
                         invariants=sched.SCHED_INVARIANTS, timeout=3600)
